@@ -357,3 +357,49 @@ class ParserSafety(ScanCheck):
         names = {n for n, _, _ in out}
         out.append(('reader_sites_present', any('msgreader.py:read_received_message' in n for n in names), {}))
         return out
+
+
+@register
+class DeferredDispatcherOnPost(FnCheck):
+    id = 'C13.deferred_dispatch_on_post'
+    prop = 'C13'
+    target = 'sdc11073.consumer.request_handler_deferred:DispatchKeyRegistryDeferred.on_post'
+    doc = ('consumer-side deferred dispatcher: a notification is handed to the worker queue only together with an '
+           'existing handler; a message with an unknown action is refused with InvalidActionError and leaves the queue '
+           '(and so the worker and the MDIB behind it) untouched')
+
+    def setup(self, b):
+        self.known = b.bool('handler_registered')
+        self.handler = b.obj('handler')
+        md = b.obj('message_data', action=b.any('action'))
+        self.req = b.obj('request_data', message_data=md)
+        self.o = b.obj('self', cls=('sdc11073.consumer.request_handler_deferred', 'DispatchKeyRegistryDeferred'))
+        b.st.ghost['puts'] = ()
+        return self.o, [self.req], {}
+
+    def callees(self, ex):
+        def get_handler(ex_, st, args, kwargs):
+            return vany(z3.If(self.known.e, Val.ref(self.handler.e), Val.none), maybe_none=True)
+
+        def put(ex_, st, args, kwargs):
+            item = args[0]
+            first = item.py[0] if item.kind == 'tuple' else None
+            st.ghost['puts'] += ((st.box(first) if first is not None else None, st.box(item.py[1]) if item.kind == 'tuple' else None),)
+            return NONE
+        alloc = lambda n: Pure(lambda e, s, a, k: s.alloc(n), name=n)   # noqa: E731
+        return {'*._get_post_handler': Pure(get_handler, name='_get_post_handler: registered handler or None'),
+                'self._queue.put': Pure(put, name='Queue.put (ghost log)'),
+                'sdc11073.pysoap.soapenvelope:Fault': alloc('Fault'), '*.add_reason_text': Pure(lambda e, s, a, k: NONE),
+                'sdc11073.consumer.request_handler_deferred:EmptyResponse': alloc('EmptyResponse')}
+
+    def post(self, ex, st0, st, outcome, b):
+        puts = st.ghost['puts']
+        if outcome[0] == 'exc':
+            ex.oblige(st, 'refused_only_for_unknown_action', z3.And(z3.BoolVal(outcome[1].cls == 'InvalidActionError'), z3.Not(self.known.e)),
+                      info={'exc': repr(outcome[1])})
+            ex.oblige(st, 'refused_message_is_not_queued', z3.BoolVal(len(puts) == 0))
+            return
+        ex.oblige(st, 'accepted_only_with_a_registered_handler', self.known.e)
+        ex.oblige(st, 'queued_exactly_once_with_its_handler_and_request', z3.And(
+            z3.BoolVal(len(puts) == 1), puts[0][0] == Val.ref(self.handler.e), puts[0][1] == Val.ref(self.req.e))
+            if len(puts) == 1 and puts[0][0] is not None else z3.BoolVal(False))
